@@ -296,6 +296,41 @@ func genC08(r *Rand, n int, thorough bool, emit func(string)) {
 			}
 			emit(fmt.Sprintf("fs.norm %s %d", hx(fmt.Sprintf("%d-%dy%d", a-1, a+span, nn)), r.Range(0, 4)))
 		}
+		if i%100 == 77 {
+			// one stepped block over 4096-20000 values, either direction, alone or with neighbours
+			a := r.Range(-50, 3000)
+			span := r.Range(4096, 20000)
+			st := r.Range(2, 9)
+			t := fmt.Sprintf("%d-%dx%d", a, a+span, st)
+			if r.Bool() {
+				t = fmt.Sprintf("%d-%dx%d", a+span, a, st)
+			}
+			switch r.Intn(3) {
+			case 1:
+				t = fmt.Sprintf("%d-%d,%s", a+5, a+9, t)
+			case 2:
+				t = fmt.Sprintf("%s,%d-%dx%d", t, a+span+r.Range(1, 9), a+1, r.Range(2, 6))
+			}
+			emit(fmt.Sprintf("fs.norm %s %d", hx(t), r.Range(0, 5)))
+		}
+		if i%100 == 41 {
+			// more than 64 blocks, with a stepped block whose frames have other blocks between them
+			a := r.Range(-50, 3000)
+			st := r.Range(5, 12)
+			cnt := r.Range(65, 90)
+			parts := []string{fmt.Sprintf("%d-%dx%d", a, a+cnt*st, st)}
+			for j := 0; j < cnt; j++ {
+				lo := a + j*st + 1 + r.Intn(2)
+				parts = append(parts, fmt.Sprintf("%d-%d", lo, lo+r.Range(0, st-3)))
+			}
+			if r.Bool() {
+				parts[0], parts[len(parts)-1] = parts[len(parts)-1], parts[0]
+			}
+			emit(fmt.Sprintf("fs.norm %s %d", hx(strings.Join(parts, ",")), r.Range(0, 4)))
+			hi := r.Range(200, 400)
+			n3 := r.Range(3, 5)
+			emit(fmt.Sprintf("fs.norm %s %d", hx(fmt.Sprintf("1-%dx%d,1-%dy%d", hi, n3, hi, n3)), r.Range(0, 4)))
+		}
 		if i%50 == 31 {
 			// strides and gaps beyond 1024 inside a block, with further blocks behind it
 			a := r.Range(-20, 2000)
